@@ -226,7 +226,7 @@ def run(chk):
 						if not chk.mine(idx):
 							continue
 						chk.case("assign", {"kind": kind, "form": form, "nullable": nullable, "specials": specials, "n": rng.choice([3, 4, 5]), "m": 3, "seed": rng.randrange(10**9)}, "weak-assign")
-	for i in range(80 if chk.quick() else 800):
+	for i in range(80 if chk.quick() else 300):
 		chk.case("history", {"seed": rng.randrange(10**9), "nsteps": rng.choice([15, 30]) if chk.quick() else rng.choice([15, 30, 60]), "profile": rng.choice(["mixed", "tables"])}, "history")
 	for other in ("C05", "C06", "C07", "C09", "C10", "C12", "C13", "C14", "C19"):
 		chk.run_foreign(other)
